@@ -48,6 +48,9 @@ func (c12) Gen(r *simrt.Rand, idx int, tier string) *Case {
 		declared[pair{a, b}], declared[pair{b, a}] = true, true
 	}
 	price := func() Q {
+		if r.P(0.04) {
+			return -Q(r.Range(1, 99999)) // a negative quote is legal: only zero is rejected
+		}
 		switch r.Intn(5) {
 		case 0:
 			return Q(r.Range(1, 99999))
